@@ -66,6 +66,7 @@ func runC18(c *Ctx) {
 	c18ConcState(c, dcs)
 	c18Rotation(c, dcs)
 	c18Families(c)
+	c18BothFamilies(c)
 	c18Chaining(c, dcs)
 	c18OptionOrder(c)
 	c18Refresh(c)
@@ -951,4 +952,64 @@ func c18OptionOrder(c *Ctx) {
 		}
 		c.Pass("opt-order:main.attack", rule, strings.Join(names, " "), c.at(calls[0]))
 	}
+}
+
+// c18BothFamilies: "one per IP family" presupposes that both families are looked up. The cache
+// resolver is used as constructed (its lookup backend is not replaced: dnscache's OnlyV4/OnlyV6
+// backends drop one family for every host) and no network name of the dial path pins a family.
+func c18BothFamilies(c *Ctx) {
+	const rule = "the DNS cache looks up both IP families: inside DNSCaching the lookup backend of the dnscache.Resolver is never replaced and no family-pinned network name (tcp4, tcp6, ip4, ip6) is used"
+	key := "both-families:lib.DNSCaching"
+	root := c.P.Func("lib", "DNSCaching")
+	if root == nil {
+		c.Undecided(key, rule, "lib.DNSCaching not found")
+		return
+	}
+	var bad []ssa.Instruction
+	var seen []string
+	n := 0
+	for _, fn := range region(root) {
+		seen = append(seen, c.fnAt(fn))
+		eachInstr(fn, func(i ssa.Instruction) {
+			n++
+			if st, isSt := i.(*ssa.Store); isSt {
+				if fa, isFA := st.Addr.(*ssa.FieldAddr); isFA && isNamedType(fa.X.Type(), "dnscache", "Resolver") && fieldName(fa.X.Type(), fa.Field) == "Resolver" {
+					bad = append(bad, st)
+				}
+			}
+			if call, isCall := asCall(i); isCall {
+				if f := call.Common().StaticCallee(); f != nil && f.Pkg != nil && strings.HasSuffix(f.Pkg.Pkg.Path(), "/dnscache") && strings.Contains(f.Name(), "Only") {
+					bad = append(bad, i)
+				}
+			}
+			var ops []*ssa.Value
+			for _, op := range i.Operands(ops) {
+				if op == nil || *op == nil {
+					continue
+				}
+				if s, isS := constString(*op); isS && (s == "tcp4" || s == "tcp6" || s == "ip4" || s == "ip6") {
+					bad = append(bad, i)
+				}
+			}
+		})
+	}
+	sortInstrs(bad)
+	bad = dedupInstrs(bad)
+	if len(bad) > 0 {
+		c.Fail(key, rule, "the lookup or the dial is restricted to one IP family: the addresses of the other family are never resolved or dialled", c.ats(bad)...)
+		return
+	}
+	c.Check(n > 0, key, rule, "lookup backend untouched, no family-pinned network", "DNSCaching has no body", seen...)
+}
+
+func dedupInstrs(is []ssa.Instruction) []ssa.Instruction {
+	var out []ssa.Instruction
+	seen := map[ssa.Instruction]bool{}
+	for _, i := range is {
+		if !seen[i] {
+			seen[i] = true
+			out = append(out, i)
+		}
+	}
+	return out
 }
